@@ -52,6 +52,19 @@ let run (t : str array) : str * str =
     let s = int_of_nat a.cstart and e = int_of_nat a.cend in
     let sp = if s <= pos && pos <= e then string_of_bools (skipn (pos - s) (abs a)) else "None" in
     (opt bits_of_cbs (seek a (nat_of_int pos)) ^ aft [1], sp ^ aft [1])
+  | "detseek" | "invseek" ->
+    let a = v 1 in let pos = ios t.(5) in
+    let det = t.(0) = "detseek" in
+    let r = if det then detach (unique (own 1)) a else invert (unique (own 1)) a in
+    let l = if det then abs a else Stdlib.List.map not (abs a) in
+    let sp = if pos <= Stdlib.List.length l then string_of_bools (skipn pos l) else "None" in
+    (opt bits_of_cbs (seek r (nat_of_int pos)) ^ aft [1], sp ^ aft [1])
+  | "appseek" ->
+    let a = v 1 and b = v 5 in let pos = ios t.(9) in
+    let r = append (unique (own 1)) a b in
+    let l = abs a @ abs b in
+    let sp = if pos <= Stdlib.List.length l then string_of_bools (skipn pos l) else "None" in
+    (opt bits_of_cbs (seek r (nat_of_int pos)) ^ aft [1; 5], sp ^ aft [1; 5])
   | "read" ->
     let a = v 1 in let n = ios t.(5) in
     let l = abs a in
